@@ -1,10 +1,18 @@
 package ksim
 
-import "k8s.io/apimachinery/pkg/runtime/schema"
+import (
+	"k8s.io/apimachinery/pkg/runtime/schema"
+	"sigs.k8s.io/controller-runtime/pkg/client"
+)
 
 type GKAlias = schema.GroupKind
 
 func installOracles(s *Sim, sc *Scenario) {
 	tr := newTrafficOracle(sc)
-	s.Oracles = append(s.Oracles, &coreOracle{sc: sc}, tr, &faultOracle{sc: sc, tr: tr})
+	s.Oracles = append(s.Oracles, &coreOracle{sc: sc}, tr, &faultOracle{sc: sc, tr: tr}, &labelOracle{sc: sc}, &deployOracle{sc: sc})
+	s.admissionHook = func(actor string, old, submitted, admitted client.Object) {
+		if actor == "user" && isWorkloadGK(ObjKey{GK: workloadGK(sc)}) && old != nil && submitted.GetName() == sc.Name {
+			s.checkAdmission(sc, old, submitted, admitted)
+		}
+	}
 }
